@@ -402,6 +402,42 @@ def _len_model(an, f, st, t, c, argiv):
                 if kk[0] == key[0] and kk[1][: len(pre)] == pre:
                     r[(dst_v, "0") + kk[1][len(pre):]] = vv
         return r, None, []
+    if name in ("core::option::Option::map_or", "core::result::Result::map_or") and len(args) == 3:
+        okv = an.sub_of_operand(st, args[0], ("#ok",)) or (0, 1)
+        variant = "@Some" if "Option" in name else "@Ok"
+        payload = an.sub_of_operand(st, args[0], (variant, "0"))
+        dflt = argiv[1]
+        res = None
+        ca = core.op_place(args[2])
+        cty = f.locals[ca["local"]]["ty"] if ca is not None and not ca["proj"] else {}
+        cres = None
+        if cty.get("k") == "closure" and cty.get("path") in an.F.fns and okv != (0, 0):
+            g = an.F.fns[cty["path"]]
+            cargs = [None] * g.arg_count
+            if g.arg_count >= 2:
+                cargs[-1] = payload
+            cres = an.call_local(g.path, cargs).get(())
+        parts = []
+        if okv != (1, 1):
+            parts.append(dflt)
+        if okv != (0, 0):
+            parts.append(cres)
+        if parts and all(p is not None for p in parts):
+            res = parts[0]
+            for p in parts[1:]:
+                res = join(res, p)
+        return ({(): res} if res is not None else {}), None, []
+    if name in ("core::option::Option::unwrap_or", "core::result::Result::unwrap_or") and len(args) == 2:
+        okv = an.sub_of_operand(st, args[0], ("#ok",)) or (0, 1)
+        variant = "@Some" if "Option" in name else "@Ok"
+        payload = an.sub_of_operand(st, args[0], (variant, "0"))
+        parts = ([argiv[1]] if okv != (1, 1) else []) + ([payload] if okv != (0, 0) else [])
+        if parts and all(p is not None for p in parts):
+            res = parts[0]
+            for p in parts[1:]:
+                res = join(res, p)
+            return {(): res}, None, []
+        return {}, None, []
     if last == "from_residual":
         return {("#ok",): (0, 0)}, None, []
     if name == "tinyvec::arrayvec::ArrayVec::push":
@@ -558,6 +594,24 @@ def _extern_call(an, f, st, t, c, argiv):
         ret = {(): (0, bits)}
     elif name.startswith("core::num::") and last in ("from_be_bytes", "from_le_bytes", "from_ne_bytes", "swap_bytes", "to_be", "to_le", "from_be", "from_le", "reverse_bits", "rotate_left", "rotate_right"):
         ret = {(): rng} if rng else {}
+    elif name.startswith("core::num::") and last in ("checked_shl", "checked_shr") and a0 is not None and a1 is not None:
+        ity = f.locals[core.op_place(t["args"][0])["local"]]["ty"]["s"] if core.op_place(t["args"][0]) else None
+        if ity is None and t["args"][0]["k"] == "const":
+            ity = t["args"][0]["ty"]["s"]
+        bits = INT_BITS.get(ity, 64)
+        prng = ty_range({"s": ity}) if ity else None
+        if a1[1] < bits:
+            okv = (1, 1)
+        elif a1[0] >= bits:
+            okv = (0, 0)
+        else:
+            okv = (0, 1)
+        ret = {("#ok",): okv}
+        if okv != (0, 0) and a0[0] >= 0:
+            hi_s = min(a1[1], bits - 1)
+            lo_s = min(a1[0], bits - 1)
+            m = (a0[0] << lo_s, a0[1] << hi_s) if last == "checked_shl" else (a0[0] >> hi_s, a0[1] >> lo_s)
+            ret[("@Some", "0")] = clip(m, prng)
     elif name.startswith("core::num::") and last in ("checked_add", "checked_sub", "checked_mul", "checked_shl", "checked_shr", "checked_div", "checked_pow"):
         if a0 is not None and a1 is not None:
             op = {"checked_add": "Add", "checked_sub": "Sub", "checked_mul": "Mul", "checked_shl": "Shl", "checked_shr": "Shr", "checked_div": "Div"}.get(last)
